@@ -44,6 +44,9 @@ func challenge(p1, p2 []byte, p3, p4, p5 ed.Point) *big.Int {
 	return ed.LEInt(c[:16])
 }
 
+// Challenge is ECVRF_challenge_generation (RFC 9381 section 5.4.3) on encoded P1, P2 and points P3..P5.
+func Challenge(p1, p2 []byte, p3, p4, p5 ed.Point) *big.Int { return challenge(p1, p2, p3, p4, p5) }
+
 // Prove: RFC 9381 section 5.1. Returns pi (80 bytes) and the number of try-and-increment rounds.
 func Prove(seed, alpha []byte) (pi []byte, pk []byte, rounds int) {
 	x, prefix := ed.SecretScalar(seed)
